@@ -173,7 +173,7 @@ PROPS = {
             'MA::next_value_seed (map access): a value is handed out only after its key (else ValueRequestedBeforeKey with nothing consumed); each key is paired with exactly one value; a buffered value (merge / reordered entry) is read from exactly its recorded events while the live cursor stays put; a live value is read at the untouched cursor with the next node as definition site',
             'SA::next_element_seed (sequence access): None exactly at the SeqEnd, which is left for the caller; otherwise the element seed runs at the untouched cursor with the element\'s own location; end of input inside a sequence is an error',
         ],
-        not_covered=['arity / field-name checks of serde-generated visitors; deserialize_enum and its EA / TaggedEA accesses, deserialize_map's own prologue, newtype / anchor wrappers (generic over Visitor, thread-local anchor context); the leftover checks of the feature-gated *_valid / *_validate entry points; the reference interpreter comparison'],
+        not_covered=['arity / field-name checks of serde-generated visitors; deserialize_enum and its EA / TaggedEA accesses, the prologue of deserialize_map, newtype / anchor wrappers (generic over Visitor, thread-local anchor context); the leftover checks of the feature-gated *_valid / *_validate entry points; the reference interpreter comparison'],
         assumptions=['scalar_is_nullish is used as an uninterpreted function of text and style'],
     ),
     'C12': dict(
